@@ -739,7 +739,7 @@ func (vr *voterecords) vote(
 		}
 	}
 
-	switch _, found, err := vr.getSuffrage(); {
+	switch suf, found, err := vr.getSuffrage(); {
 	case err != nil:
 		return false, false, errors.WithMessage(err, "vote")
 	case !found:
@@ -747,6 +747,15 @@ func (vr *voterecords) vote(
 
 		return true, false, nil
 	default:
+		// NOTE same check with the ballots voted before suffrage is known,
+		// countFromBallots(); the sign fact of unknown node is not counted.
+		if err := vr.isValidBallot(signfact, suf); err != nil {
+			delete(vr.vps, node.String())
+			delete(vr.expels, node.String())
+
+			return false, false, nil
+		}
+
 		vr.voted[node.String()] = signfact
 
 		return true, true, nil
